@@ -13,7 +13,7 @@ from typing import Dict, List, Optional, Tuple
 
 from fsa.cfg import CFG, raised_class
 from fsa.flow import LocalFlow, PARAM, dominators, must_pass, names_loaded
-from fsa.match import dotted, is_const, is_self_call, kwarg, dict_slot, has_star_kwargs, pred_call_attr, pred_raise, pred_series_store
+from fsa.match import Unknown, dotted, is_call, is_const, is_self_call, kwarg, dict_slot, has_star_kwargs, pred_call_attr, pred_raise, pred_series_store
 from fsa.source import AnchorMissing, Unsupported, iter_own_nodes, stmt_key, text
 from rules import c02
 from rules.solver_common import names_bound_of, SolverShape, check_convergence, fsic_hierarchy, series_stores
@@ -420,16 +420,68 @@ def r6_constructor(R) -> None:
         for x in ast.walk(n.ast):
             if isinstance(x, ast.Compare) and len(x.ops) == 1 and isinstance(x.ops[0], (ast.Eq, ast.NotEq)):
                 sides = [x.left, x.comparators[0]]
-                if all('span' in text(s) for s in sides):
+                if all('span' in text(s) for s in sides) and not all(isinstance(s, ast.Call) and dotted(s.func) == 'len' for s in sides):
                     cmps.append((n, x))
             if isinstance(x, ast.Call) and dotted(x.func) in ('np.array_equal', 'numpy.array_equal') and all('span' in text(a) for a in x.args):
                 cmps.append((n, x))
             if isinstance(x, ast.Call) and isinstance(x.func, ast.Attribute) and x.func.attr == 'equals' and 'span' in text(x.func.value):
                 cmps.append((n, x))
-    if not R.expect(QI, len(cmps), 1, 'comparison of a submodel span with the base span'):
+    zipped = None
+    if not cmps:
+        # label-by-label comparison, possibly in a helper: all(x == y for x, y in zip(A.span, B.span)) - zip() stops at the
+        # shorter span, so the lengths must have been compared too
+        from rules.common import Fn as _Fn
+        from fsa.gated import canon, leaves, lift_ifs
+        f0 = _Fn(R, QI)
+        se0 = f0.symexec()
+        owners = {id(x.test): x for x in ast.walk(fi.node) if isinstance(x, (ast.If, ast.While))}
+        for n in cfg.nodes:
+            if n.kind != 'test':
+                continue
+            t2 = f0._inline_pure_calls(n.ast)
+            own = owners.get(id(n.ast))
+            if own is not None and id(own) in se0.before:
+                try:
+                    t2 = f0._inline_pure_calls(canon(se0.value(own, n.ast)))
+                except (Unsupported, Unknown):
+                    pass
+            for x in ast.walk(t2):
+                if is_call(x, 'all') and len(x.args) == 1 and isinstance(x.args[0], (ast.GeneratorExp, ast.ListComp)) and len(x.args[0].generators) == 1 \
+                        and is_call(x.args[0].generators[0].iter, 'zip') and len(x.args[0].generators[0].iter.args) == 2 \
+                        and all('span' in text(a) for a in x.args[0].generators[0].iter.args):
+                    zipped = (n, t2, x)
+        if zipped is not None:
+            tn, t2, allc = zipped
+            a_, b_ = (text(a) for a in allc.args[0].generators[0].iter.args)
+            gen = allc.args[0]
+            tg = gen.generators[0].target
+            pair = [text(e) for e in tg.elts] if isinstance(tg, ast.Tuple) and len(tg.elts) == 2 else None
+            eq_ok = pair is not None and any(isinstance(y, ast.Compare) and len(y.ops) == 1 and isinstance(y.ops[0], ast.Eq) and
+                                             sorted([text(y.left), text(y.comparators[0])]) == sorted(pair) for y in ast.walk(gen.elt))
+            R.check(eq_ok, QI, 'span-compare-labels', 'spans are compared label by label', f'`{text(allc)[:70]}` does not compare the paired labels for equality',
+                    where=f'{fi.module.relpath}:{tn.lineno}')
+            guarded = False
+            for (facts, leaf) in leaves(canon(lift_ifs(canon(t2)))):
+                if any(x is not None and ast.dump(x) == ast.dump(allc) for x in ast.walk(leaf)) or text(allc) in text(leaf):
+                    ft = [(text(a0), tr) for (a0, tr) in facts]
+                    lens = {f'len({a_}) == len({b_})', f'len({b_}) == len({a_})'}
+                    nlens = {f'len({a_}) != len({b_})', f'len({b_}) != len({a_})'}
+                    if any((t0 in lens and tr) or (t0 in nlens and not tr) for (t0, tr) in ft) or any(l_ in text(leaf) for l_ in lens):
+                        guarded = True
+            R.check(guarded, QI, 'span-compare-lengths', 'spans of different lengths never match',
+                    f'`{text(allc)[:80]}` pairs the labels with zip(), which stops at the end of the shorter span, and the lengths are not compared: a span that is a leading '
+                    f'part of another (or an empty one) is accepted as matching - submodels with differing spans are not rejected', where=f'{fi.module.relpath}:{tn.lineno}')
+            R.check(a_ != b_, QI, 'span-compare-operands', 'two different submodels are compared', f'`{text(allc)[:60]}` compares a span with itself',
+                    where=f'{fi.module.relpath}:{tn.lineno}')
+            differ_edge = 'T' if isinstance(t2, ast.UnaryOp) and isinstance(t2.op, ast.Not) else 'F'
+            c = None
+    if zipped is None and not R.expect(QI, len(cmps), 1, 'comparison of a submodel span with the base span'):
         return
-    tn, c = cmps[0]
-    if isinstance(c, ast.Compare):
+    if zipped is None:
+        tn, c = cmps[0]
+    if zipped is not None:
+        pass
+    elif isinstance(c, ast.Compare):
         sides = [c.left, c.comparators[0]]
 
         def safe(s: ast.AST) -> bool:
@@ -453,7 +505,7 @@ def r6_constructor(R) -> None:
     else:
         R.ok(QI, 'spans compared with a whole-sequence equality function', detail=text(c))
         differ_edge = 'F'
-    if isinstance(tn.ast, ast.UnaryOp) and isinstance(tn.ast.op, ast.Not):
+    if zipped is None and isinstance(tn.ast, ast.UnaryOp) and isinstance(tn.ast.op, ast.Not):
         differ_edge = 'T' if differ_edge == 'F' else 'F'
     rs = [n for n in cfg.nodes if isinstance(n.ast, ast.Raise) and raised_class(n.ast) == 'InitialisationError'
           and any(b == n.id and lab == differ_edge for (b, lab) in tn.succ)]
@@ -475,12 +527,21 @@ def r6_constructor(R) -> None:
                     lookups.add(a_.value.id)
     lp = [cfg.nodes[i] for i in tn.loops]
     ok = False
+    this_model = set()
     if lp and isinstance(lp[-1].ast.iter, ast.Name):
         itn = lp[-1].ast.iter.id
         vals = lf.values_reaching(lp[-1].id, itn)
         for (s, v) in vals:
-            if v is not None and isinstance(v, ast.Call) and dotted(v.func) == 'iter' and text(v.args[0]) in lookups:
-                ok = True
+            if v is not None and isinstance(v, ast.Call) and dotted(v.func) == 'iter' and v.args:
+                a0 = v.args[0]
+                if text(a0) in lookups:
+                    ok, this_model = True, {f'{lk}[{text(lp[-1].ast.target)}]' for lk in lookups}
+                elif isinstance(a0, ast.Call) and isinstance(a0.func, ast.Attribute) and not a0.args and text(a0.func.value) in lookups:
+                    tg_ = lp[-1].ast.target
+                    if a0.func.attr == 'items' and isinstance(tg_, ast.Tuple) and len(tg_.elts) == 2:
+                        ok, this_model = True, {text(tg_.elts[1])}
+                    elif a0.func.attr == 'values' and isinstance(tg_, ast.Name):
+                        ok, this_model = True, {tg_.id}
     R.check(ok, QI, 'span-compare-all', 'every submodel after the first is compared with the first',
             'the span comparison does not iterate over all remaining submodels', where=f'{fi.module.relpath}:{tn.lineno}')
     # lags / leads: what is stored as _LAGS / _LEADS is folded with max over the submodels' LAGS / LEADS
@@ -506,7 +567,7 @@ def r6_constructor(R) -> None:
             other = [x for x in v.args if text(x) != nm][0]
             # the submodel read is the one of this iteration
             owner = f.etext(d.node.id, other.value, stop=tuple(x.id for x in ast.walk(lp[-1].ast.target) if isinstance(x, ast.Name)))
-            ok = any(owner == f'{lk}[{text(lp[-1].ast.target)}]' for lk in lookups)
+            ok = owner in this_model or any(owner == f'{lk}[{text(lp[-1].ast.target)}]' for lk in lookups)
         R.check(ok, QI, f'fold:{attr}:' + text(v)[:50], f'linker {attr} = maximum over submodels', f'`{nm} = {text(v)[:60]}` is not `{nm} = max({nm}, <submodel of this iteration>.{attr})`',
                 where=f.where(d.node))
         base_ok = any(isinstance(x.value, ast.Attribute) and x.value.attr == attr for x in inits)
